@@ -72,17 +72,20 @@ type Node struct {
 
 // Model is the reference accepted-header tree.
 type Model struct {
-	Genesis *Node
-	Nodes   map[Hash]*Node
-	Ever    map[Hash]*Node // every header ever accepted (including later removed)
-	Invalid map[Hash]bool
+	Genesis  *Node
+	Nodes    map[Hash]*Node
+	Ever     map[Hash]*Node // every header ever accepted (including later removed)
+	Invalid  map[Hash]bool
 	MaxDepth int
-	Tip     *Node // follows the repository's choice among max-work tips
-	seq     int
+	Tip      *Node // follows the repository's choice among max-work tips
+	seq      int
 	// MaybePruned: headers that a maintenance op may legitimately have dropped from memory.
 	MaybePruned map[Hash]bool
 	// Dropped: side-branch headers that a Load may legitimately not have restored.
 	MaybeDropped map[Hash]bool
+	// HookPruned: a caller-chosen (small) prune depth was applied; branch bases are then arbitrary.
+	HookPruned   bool
+	TwinDiverged bool
 }
 
 func NewModel(genesis *wire.BlockHeader, maxDepth int) *Model {
@@ -95,7 +98,7 @@ func NewModel(genesis *wire.BlockHeader, maxDepth int) *Model {
 
 func (m *Model) Clone() *Model {
 	c := &Model{Nodes: map[Hash]*Node{}, Ever: map[Hash]*Node{}, Invalid: map[Hash]bool{},
-		MaxDepth: m.MaxDepth, seq: m.seq, MaybePruned: map[Hash]bool{}, MaybeDropped: map[Hash]bool{}}
+		MaxDepth: m.MaxDepth, seq: m.seq, HookPruned: m.HookPruned, MaybePruned: map[Hash]bool{}, MaybeDropped: map[Hash]bool{}}
 	// copy nodes preserving structure
 	old2new := map[*Node]*Node{}
 	var order []*Node
